@@ -5,8 +5,10 @@ from concurrent.futures import ProcessPoolExecutor
 
 VERIF = os.path.dirname(os.path.dirname(os.path.abspath(__file__)))
 REPO = os.environ.get("VERIF_REPO", "/repo")
-COQ = os.path.join(VERIF, "coq")
-BUILD = os.path.join(VERIF, "build")
+# VERIF_COQ / VERIF_BUILD: private copies of the Coq tree and the scratch directory for runs against another checkout
+# (tools/run_seeded.sh), so that such a run never regenerates coq/Gen or case shards of the real tree
+COQ = os.environ.get("VERIF_COQ") or os.path.join(VERIF, "coq")
+BUILD = os.environ.get("VERIF_BUILD") or os.path.join(VERIF, "build")
 # evidence/ describes /repo itself: a run against another checkout (VERIF_REPO=<tree>, used for the seeded changes)
 # writes its evidence and replays under build/ so that it never overwrites the evidence of the real tree
 _ALT = os.path.realpath(REPO) != os.path.realpath("/repo")
